@@ -1,6 +1,84 @@
-(* C14 — property theorems only (placeholder while the proofs are written). *)
-From Coq Require Import List NArith.
-From VV Require Import C14.Model.
-Theorem C14_placeholder : caught_now XEOFError = true.
-Proof. reflexivity. Qed.
-Print Assumptions C14_placeholder.
+(* C14 — property theorems only.  Each is closed by [exact]; see C14/Proofs*.v. *)
+From Coq Require Import List ZArith NArith.
+From VV Require Import C14.Model C14.Proofs C14.Proofs2 C14.Proofs3.
+Import ListNotations.
+Open Scope N_scope.
+
+(* The unpickler, whatever the opcodes do: if loading b succeeds, consuming [used]
+   (up to its STOP) and leaving [rest], then loading ANY strict prefix of [used]
+   fails with EOFError or "pickle data was truncated" - it never yields a value
+   and never fails otherwise.  [exec] is arbitrary: this covers payload classes
+   outside the modelled value universe. *)
+Theorem C14_no_strict_prefix_loads :
+  forall (St V : Type) (shape_tbl : N -> option shape) (exec : N -> list N -> St -> step St V)
+         (s0 : St) (b : list N) (v : V) (rest : list N),
+  load St V shape_tbl exec s0 b = Got (v, rest) ->
+  exists used, b = used ++ rest /\
+    forall p q, used = p ++ q -> q <> [] ->
+      load St V shape_tbl exec s0 p = Fail EEOF \/ load St V shape_tbl exec s0 p = Fail ETrunc.
+Proof. exact load_prefix_err. Qed.
+Print Assumptions C14_no_strict_prefix_loads.
+
+(* dec_prefix_err: the same for the value-level decoder of Env files *)
+Theorem C14_dec_prefix_err :
+  forall b v rest, dec b = Got (v, rest) ->
+  exists used, b = used ++ rest /\
+    forall p q, used = p ++ q -> q <> [] -> dec p = Fail EEOF \/ dec p = Fail ETrunc.
+Proof. exact dec_prefix_err. Qed.
+Print Assumptions C14_dec_prefix_err.
+
+(* dec_enc: what the encoder writes is read back exactly and completely *)
+Theorem C14_dec_enc :
+  forall v, wf v -> N.of_nat (length (enc_v v) + 1) < 2 ^ 64 -> dec (enc v) = Got (v, []).
+Proof. exact dec_enc. Qed.
+Print Assumptions C14_dec_enc.
+
+(* from_file on a file cut at any byte (the empty file included): no exception,
+   no environment - provided EOFError and UnpicklingError are in the except clauses *)
+Theorem C14_from_file_never_raises_on_prefix :
+  forall caught p,
+  caught XEOFError = true -> caught XUnpicklingError = true ->
+  (exists full v rest used q,
+     dec full = Got (v, rest) /\ full = used ++ rest /\ used = p ++ q /\ q <> []) ->
+  from_file caught (FData p) = Ret None.
+Proof. exact from_file_never_raises_on_prefix. Qed.
+Print Assumptions C14_from_file_never_raises_on_prefix.
+
+(* read_env over files each of which is damaged (missing, unreadable, cut anywhere)
+   or holds a complete Env({name: entry}): never raises; every reported entry is the
+   DONE entry of an intact file; every DONE entry of an intact file is reported, exactly *)
+Theorem C14_read_env_spec :
+  forall caught,
+  caught XEOFError = true -> caught XUnpicklingError = true -> caught XOSError = true ->
+  forall (fs : fsmap) names,
+  (forall n, In n names -> file_ok (fs n)) ->
+  exists r, read_env caught fs names = Ret r /\
+    (forall k e, In (k, e) r -> exists n, In n names /\ intact_for (fs n) k e /\ done e) /\
+    (forall n s e, In n names -> intact_for (fs n) (VStr s) e -> done e ->
+       (forall n' e', In n' names -> intact_for (fs n') (VStr s) e' -> e' = e) ->
+       In (VStr s, e) r).
+Proof. exact read_env_spec. Qed.
+Print Assumptions C14_read_env_spec.
+
+(* ... and that is the state after ANY history of complete writes (by whatever
+   pickler), crashes that leave the first j bytes of a file, and deletions *)
+Theorem C14_read_env_after_history :
+  forall caught ops names,
+  caught XEOFError = true -> caught XUnpicklingError = true -> caught XOSError = true ->
+  Forall valid_hop ops ->
+  let fs := fold_left apply_hop ops fs0 in
+  exists r, read_env caught fs names = Ret r /\
+    (forall k e, In (k, e) r -> exists n, In n names /\ intact_for (fs n) k e /\ done e) /\
+    (forall n s e, In n names -> intact_for (fs n) (VStr s) e -> done e ->
+       (forall n' e', In n' names -> intact_for (fs n') (VStr s) e' -> e' = e) ->
+       In (VStr s, e) r).
+Proof. exact read_env_after_history. Qed.
+Print Assumptions C14_read_env_after_history.
+
+(* a write interrupted after j < |b| bytes leaves a damaged file *)
+Theorem C14_crash_during_write_is_damage :
+  forall fs n b j s e,
+  dec b = Got (mk_env [(VStr s, e)], []) -> (j < length b)%nat ->
+  damaged (apply_hop (apply_hop fs (HWrite n b)) (HCut n j) n).
+Proof. exact crash_during_write_damaged. Qed.
+Print Assumptions C14_crash_during_write_is_damage.
